@@ -1,0 +1,60 @@
+//go:build verif
+// +build verif
+
+// Verification hook for the native-token conservation check (add-only, compiled only with -tags verif).
+// STAKE / UNSTAKE / UNSTAKEALL reach the ledger through evm.accountDB (the concrete AccountDB), not through
+// the StateDB interface a harness can wrap, and AUTHCALL takes its value from evm.Origin. VerifC06Instrument
+// lets a harness observe those opcodes on ONE evm instance it created itself: the jump table entries of that
+// instance are replaced by wrappers that report the operands found on the stack, call the unchanged
+// opcode function, and report what it pushed / returned. Nothing else is touched; an evm that was not
+// instrumented (every evm the node creates) runs exactly as before.
+package vm
+
+import (
+	"math/big"
+
+	"com.tuntun.rangers/node/src/common"
+)
+
+// VerifC06OpEvent is reported twice per executed opcode: before (Done == false) and after (Done == true).
+type VerifC06OpEvent struct {
+	Op       OpCode
+	Contract common.Address // callContext.contract.Address()
+	Args     []*big.Int     // the operands, top of stack first (minStack of them)
+	Done     bool
+	Result   *big.Int // top of stack after the opcode returned without error (nil otherwise)
+	Err      error    // error returned by the opcode function (aborts the frame)
+}
+
+// VerifC06Instrument wraps the given opcodes of evm's interpreter. Returns false when the interpreter is not
+// the built-in one.
+func VerifC06Instrument(evm *EVM, ops []OpCode, cb func(ev *VerifC06OpEvent)) bool {
+	in, ok := evm.interpreter.(*EVMInterpreter)
+	if !ok || cb == nil {
+		return false
+	}
+	for _, op := range ops {
+		orig := in.jumpTable[op]
+		if orig == nil || orig.execute == nil {
+			continue
+		}
+		wrapped := *orig
+		opc, origExec, nargs := op, orig.execute, orig.minStack
+		wrapped.execute = func(pc *uint64, interpreter *EVMInterpreter, callContext *callCtx) ([]byte, error) {
+			ev := &VerifC06OpEvent{Op: opc, Contract: callContext.contract.Address()}
+			for i := 0; i < nargs && i < callContext.stack.len(); i++ {
+				ev.Args = append(ev.Args, callContext.stack.Back(i).ToBig())
+			}
+			cb(ev)
+			ret, err := origExec(pc, interpreter, callContext)
+			done := &VerifC06OpEvent{Op: opc, Contract: ev.Contract, Args: ev.Args, Done: true, Err: err}
+			if err == nil && callContext.stack.len() > 0 {
+				done.Result = callContext.stack.peek().ToBig()
+			}
+			cb(done)
+			return ret, err
+		}
+		in.jumpTable[op] = &wrapped
+	}
+	return true
+}
